@@ -58,7 +58,7 @@ pub fn gen_doc(r: &mut Rng) -> Vec<Elem> {
             0 | 1 => { let p = prose(r); if p == "---" && d.is_empty() { continue; } d.push(Elem::Prose(p)); }
             2 => d.push(Elem::Heading(r.range(1, 3), word(r))),
             3 | 4 => d.push(Elem::Blank),
-            5 => { let n = r.range(3, 5); let lang = r.pick(&["bash", "sh", "scrut ", "scrutx", "c++", "text {x}", "yaml"]).to_string();
+            5 => { let n = r.range(3, 5); let lang = r.pick(&["bash", "sh", "scrut x", "scrutx", "c++", "text {x}", "yaml", "bash ", "text {x} \t"]).to_string();
                    let k = r.range(0, 3);
                    let mut body: Vec<String> = vec![];
                    for _ in 0..k { body.push(prose(r)); }
@@ -122,7 +122,7 @@ pub fn join_lines(r: &mut Rng, lines: &[String]) -> String {
 }
 fn soup(r: &mut Rng) -> String {
     let n = r.range(0, 9);
-    let alpha = ["", "---", "```", "```scrut", "````scrut", "```bash", "``x", "`", "$ cmd", "> more", "out", "[1]", "# c", "# Heading", "text", "```scrut {timeout: 3s}", "```scrut {", "```é{x}", "```scrut{}", " ```scrut", "defaults:", "  keep_crlf: true", "````", "```` ", "[2]"];
+    let alpha = ["", "---", "```", "```scrut", "````scrut", "```bash", "``x", "`", "$ cmd", "> more", "out", "[1]", "# c", "# Heading", "text", "```scrut {timeout: 3s}", "```scrut {", "```é{x}", "```scrut{}", " ```scrut", "```scrut ", "```scrut\t ", "```scrut {timeout: 3s} ", "```scrut {keep_crlf: true}\t", "```scrut {timeout: 3s} x", "```bash ", "defaults:", "  keep_crlf: true", "````", "```` ", "[2]"];
     let lines: Vec<String> = (0..n).map(|_| r.pick(&alpha).to_string()).collect();
     join_lines(r, &lines)
 }
